@@ -197,9 +197,38 @@ func order(x *mon.Ctx) {
 				for d := int64(-1); d <= 2; d++ {
 					sv := modN(add(sub(sub(ec.N, one), modN(mul(o, s.v))), bi(d)))
 					sigCase(c, sv, o, s.v)
+					// the integer sum e*t mod n + s at 2^256-2 .. 2^256+1 (the carry out of the top limb), when s stays below n
+					if sv = add(sub(sub(p256, one), modN(mul(o, s.v))), bi(d)); sv.Sign() >= 0 && sv.Cmp(ec.N) < 0 {
+						sigCase(c, sv, o, s.v)
+						c.Event("implicitsig_sum_at_2^256", 1)
+					}
 				}
 			}
 		}
+		c.End()
+	}
+	// strings that are not 32 bytes long: every function documents an error (and must not panic)
+	for _, n := range []int{0, 1, 31, 33, 64} {
+		c := x.Begin("P256OrdInverse / P256OrdMul / ImplicitSig: %d-byte operands", n)
+		if c == nil {
+			continue
+		}
+		c.Class("ord/wrong-length/%d", n)
+		bad, good := c.R.Bytes(n), b32(c.R.BigBelow(ec.N))
+		refused := func(what string, f func() ([]byte, error)) {
+			var out []byte
+			var err error
+			if c.Call(what, func() { out, err = f() }) && err == nil {
+				c.Fail("accept", "%s accepted a %d-byte operand and returned %x", what, n, out)
+			}
+			c.Event("wrong_length_refused", 1)
+		}
+		refused("P256OrdInverse", func() ([]byte, error) { return verifhook.P256OrdInverse(bad) })
+		refused("P256OrdMul(bad, good)", func() ([]byte, error) { return verifhook.P256OrdMul(bad, good) })
+		refused("P256OrdMul(good, bad)", func() ([]byte, error) { return verifhook.P256OrdMul(good, bad) })
+		refused("ImplicitSig(bad, good, good)", func() ([]byte, error) { return verifhook.ImplicitSig(bad, good, good) })
+		refused("ImplicitSig(good, bad, good)", func() ([]byte, error) { return verifhook.ImplicitSig(good, bad, good) })
+		refused("ImplicitSig(good, good, bad)", func() ([]byte, error) { return verifhook.ImplicitSig(good, good, bad) })
 		c.End()
 	}
 	nm := x.Scale(6000, 300000)
